@@ -26,6 +26,9 @@ RULE = (
 )
 
 
+mod_reply = [b"END\r\n"]  # what the recording socket answers (set per operation)
+
+
 class RecSock:
     def __init__(self, log):
         self.log = log
@@ -34,7 +37,7 @@ class RecSock:
     def settimeout(self, t): pass
     def connect(self, a): pass
     def sendall(self, d): self.log.append(bytes(d))
-    def recv(self, n): return b"END\r\n"
+    def recv(self, n): return mod_reply[0]
     def close(self): pass
 
 
@@ -61,6 +64,18 @@ class DownModule(RecModule):
         return DownSock(self.log)
 
 
+# (operation, call, reply the fake server gives, position of the key among the words of the command line)
+WIRE_OPS = [("gets", lambda o, k: o.gets(k), b"END\r\n", 1), ("gat", lambda o, k: o.gat(k, expire=30), b"END\r\n", 2),
+            ("gats", lambda o, k: o.gats(k, expire=30), b"END\r\n", 2),
+            ("set", lambda o, k: o.set(k, b"v", noreply=True), b"STORED\r\n", 1),
+            ("cas", lambda o, k: o.cas(k, b"v", b"1", noreply=True), b"STORED\r\n", 1),
+            ("append", lambda o, k: o.append(k, b"v", noreply=True), b"STORED\r\n", 1),
+            ("delete", lambda o, k: o.delete(k, noreply=True), b"DELETED\r\n", 1),
+            ("incr", lambda o, k: o.incr(k, 1, noreply=True), b"1\r\n", 1),
+            ("touch", lambda o, k: o.touch(k, 30, noreply=True), b"TOUCHED\r\n", 1),
+            ("get_many", lambda o, k: o.get_many([k]), b"END\r\n", 1),
+            ("delete_many", lambda o, k: o.delete_many([k], noreply=True), b"DELETED\r\n", 1)]
+
 # an illegal key is reported as such whether or not the server can be reached, by every kind of operation
 DOWN_OPS = [("get", lambda o, k: o.get(k)), ("set", lambda o, k: o.set(k, b"v", noreply=False)),
             ("add", lambda o, k: o.add(k, b"v")), ("cas", lambda o, k: o.cas(k, b"v", b"1")),
@@ -73,6 +88,7 @@ DOWN_OPS = [("get", lambda o, k: o.get(k)), ("set", lambda o, k: o.set(k, b"v", 
 def verdicts(key, prefix, uni, hash_too):
     """[(entry point, 'ok'|'illegal'|'other:<Type>', wire or None)]"""
     out = []
+    mod_reply[0] = b"END\r\n"
     try:
         out.append(("check_key_helper", "ok", check_key_helper(key, uni, prefix)))
     except MemcacheIllegalInputError:
@@ -126,6 +142,24 @@ def verdicts(key, prefix, uni, hash_too):
                     out.append((name, "no-server-error", None))
                 else:
                     out.append((name, "other:" + type(e).__name__, None))
+        # every kind of key-addressed operation validates and transmits the key the same way
+        for cls, cname, args in ((Client, "Client", ("/s",)), (PooledClient, "PooledClient", ("/s",)),
+                                 (HashClient, "HashClient", (["/s"],))):
+            for opname, call, reply, pos in WIRE_OPS:
+                mod = RecModule()
+                mod_reply[0] = reply
+                h = cls(*args, key_prefix=prefix, allow_unicode_keys=uni, socket_module=mod)
+                name = f"{cname}.{opname}"
+                try:
+                    call(h, key)
+                    sent = b"".join(mod.log)
+                    toks = sent.split(b"\r\n")[0].split(b" ")
+                    out.append((name, "ok" if sent else "silently-ignored", toks[pos] if len(toks) > pos else sent))
+                except MemcacheIllegalInputError:
+                    out.append((name, "illegal" if not mod.log else "illegal-after-sending", None))
+                except Exception as e:
+                    out.append((name, "other:" + type(e).__name__, None))
+        mod_reply[0] = b"END\r\n"
         for cls, cname, args in ((Client, "Client", ("/s",)), (PooledClient, "PooledClient", ("/s",)),
                                  (HashClient, "HashClient", (["/s"],))):
             for opname, call in DOWN_OPS:
